@@ -21,6 +21,8 @@ class RuleDef:
 
 def rule(rid, props, floor=1, title="", configs=("default",), scope_all=False):
     def deco(fn):
+        if rid in RULES and RULES[rid].fn.__code__.co_filename != fn.__code__.co_filename or (rid in RULES and RULES[rid].fn.__name__ != fn.__name__):
+            raise RuntimeError("rule id %s is defined twice (%s and %s)" % (rid, RULES[rid].fn.__name__, fn.__name__))
         RULES[rid] = RuleDef(rid, fn, props, floor, title or (fn.__doc__ or "").strip().split("\n")[0], configs)
         # scope_all: the rule is a necessary condition of every listed property wherever the construct lives
         # (no attribution by anchor files)
@@ -32,8 +34,9 @@ def rule(rid, props, floor=1, title="", configs=("default",), scope_all=False):
 
 
 class Violation:
-    def __init__(self, rid, key, msg, loc="", details=None, props=None):
+    def __init__(self, rid, key, msg, loc="", details=None, props=None, exclude=None):
         self.props = props
+        self.exclude = exclude
         self.rid = rid
         self.key = "%s:%s" % (rid, key)
         self.msg = msg
@@ -67,9 +70,10 @@ class RuleResult:
         if sample is not None and len(self.samples) < 4:
             self.samples.append(sample)
 
-    def violate(self, key, msg, loc="", details=None, props=None):
-        """props: the properties (a subset of the rule's) this particular obligation is a clause of."""
-        self.violations.append(Violation(self.rid, key, msg, loc, details, props))
+    def violate(self, key, msg, loc="", details=None, props=None, exclude=None):
+        """props: the properties (a subset of the rule's) this particular obligation is a clause of; exclude: properties
+        of the rule that this obligation is *not* a clause of (the others are attributed by anchor files as usual)."""
+        self.violations.append(Violation(self.rid, key, msg, loc, details, props, exclude))
 
     def check(self, ok, key, msg, loc="", details=None, sample=None, props=None):
         """One obligation that is either discharged or a violation."""
